@@ -94,3 +94,24 @@ Fixpoint strictly_increasing (l : list Z) : bool :=
   match l with a :: ((b :: _) as r) => ((a <? b)%Z && strictly_increasing r)%bool | _ => true end.
 Theorem weight_rows_one_per_element : strictly_increasing (map row_z MassTables.element_mass) = true.
 Proof. vm_compute. reflexivity. Qed.
+
+(* each nuclide has exactly one row of the isotope table: the keys (Z, A), read as Z * 1000 + A, increase strictly
+   from row to row (a row keyed under another nuclide's mass number is out of order or a duplicate) *)
+Definition isotope_row_key (line : string) : Z :=
+  match split_char "," line with
+  | key :: _ =>
+      match split_char "-" key with
+      | [z; _; a] => match parse_int z, parse_int a with
+                     | Some zz, Some aa => (zz * 1000 + aa)%Z
+                     | _, _ => (-1)%Z
+                     end
+      | _ => (-1)%Z
+      end
+  | [] => (-1)%Z
+  end.
+Theorem isotope_rows_one_per_nuclide : strictly_increasing (map isotope_row_key MassTables.isotope_mass) = true.
+Proof. vm_compute. reflexivity. Qed.
+Example isotope_rows_order_sensitive :
+  strictly_increasing (map isotope_row_key ["71-Lu-155,1(1),,"; "71-Lu-156,1(1),,"; "71-Lu-156,2(1),,"]) = false
+  /\ strictly_increasing (map isotope_row_key ["71-Lu-155,1(1),,"; "71-Lu-156,1(1),,"; "71-Lu-157,2(1),,"]) = true.
+Proof. split; vm_compute; reflexivity. Qed.
